@@ -97,7 +97,8 @@ class CoxeterGroup:
             self.generators[g][g] = 1
 
         self.coxeter_matrix = np.array([
-            [self.generators[g1][g2] for g2 in self.ordered_gens]
+            # nodes which are not joined by an edge commute
+            [self.generators[g1].get(g2, 2) for g2 in self.ordered_gens]
             for g1 in self.ordered_gens
         ])
 
